@@ -467,6 +467,8 @@ func (ce *CEnv) call(e *CExpr) Val {
 		// held(x.mu): ghost lock flag of a mutex field
 		pl := ce.lvaluePlace(args[0])
 		return boolVal(ce.heap.Get(pl.Prefix+"#held", len(pl.Idx), SBool).Select(pl.Idx))
+	case "ghostnow":
+		return intVal(ce.heap.Get("ghost.now", 0, SInt).Select(nil))
 	case "ncalls":
 		return intVal(ce.heap.Get("log#n", 0, SInt).Select(nil))
 	case "callfn":
